@@ -14,13 +14,12 @@ def build(extras=False, release=False):
     d = os.path.join(WORK, name)
     os.makedirs(d, exist_ok=True)
     t = open(os.path.join(VERIF, "native", "Cargo.toml.in")).read()
-    fe = ', features = ["grammar-extras"]' if extras else ""
-    t = t.replace("@SRC@", SRC).replace("@REPO@", REPO).replace("@META_FEATURES@", fe).replace("@VM_FEATURES@", fe).replace("@GEN_FEATURES@", fe)
+    t = t.replace("@SRC@", SRC).replace("@REPO@", REPO)
     p = os.path.join(d, "Cargo.toml")
     if not os.path.exists(p) or open(p).read() != t: open(p, "w").write(t)
     shutil.copy(os.path.join(REPO, "Cargo.lock"), os.path.join(d, "Cargo.lock"))
     tdir = os.path.join(WORK, name + "-target")
-    cmd = ["cargo", "build", "--offline"] + (["--release"] if release else [])
+    cmd = ["cargo", "build", "--offline"] + (["--release"] if release else []) + (["--features", "grammar-extras"] if extras else [])
     rc, out = sh(cmd, cwd=d, env={"CARGO_TARGET_DIR": tdir, "RUSTFLAGS": f"--cfg {GUARD}"}, timeout=1800)
     if rc != 0:
         raise Inconclusive("verif-native build failed:\n" + out[-3000:])
